@@ -165,5 +165,220 @@ theorem applyOutputs_ok (os : List (Nat × Bool)) (h : Nat) : ∀ {S S1 : TxHS},
         exact List.nodup_cons.mpr ⟨hnot, A.nodup⟩
       · rw [A.spentIdx, hS']; rfl
 
+
+/-! ### inputs -/
+
+theorem validateInput_ok {S : TxHS} {c : Nat} {cp : CommitPos} (h : S.validateInput c = .ok cp) :
+    S.getOutputPos c = some cp ∧ S.getData cp.pos = some c := by
+  unfold validateInput at h
+  cases hg : S.getOutputPos c with
+  | none => simp [hg] at h
+  | some cp' =>
+    simp only [hg] at h
+    cases hd : S.getData cp'.pos with
+    | none => simp [hd] at h
+    | some c' =>
+      simp only [hd] at h
+      by_cases hc : c' = c
+      · subst hc
+        simp at h
+        subst h
+        exact ⟨rfl, hd⟩
+      · have : (c' == c) = false := by simpa using hc
+        simp [this] at h
+
+theorem validateInput_of {S : TxHS} (hi : RInv S) {c : Nat} {cp : CommitPos}
+    (h : S.getOutputPos c = some cp) : S.validateInput c = .ok cp := by
+  obtain ⟨h1, h2⟩ := hi.points c cp h
+  have : S.getData cp.pos = some c := (getData_eq_some S cp.pos c).mpr ⟨h1, h2⟩
+  unfold validateInput
+  simp [h, this]
+
+theorem validateInputs_ok {S : TxHS} : ∀ (cs : List Nat) (sp : List (Nat × CommitPos)),
+    S.validateInputs cs = .ok sp →
+    sp.map (·.1) = cs ∧ ∀ x ∈ sp, S.getOutputPos x.1 = some x.2 ∧ S.getData x.2.pos = some x.1 := by
+  intro cs
+  induction cs with
+  | nil =>
+    intro sp h
+    simp only [validateInputs] at h
+    injection h with h
+    subst h
+    exact ⟨rfl, fun x hx => by cases hx⟩
+  | cons c cs ih =>
+    intro sp h
+    simp only [validateInputs] at h
+    cases h1 : S.validateInput c with
+    | error e => rw [h1] at h; cases h
+    | ok cp =>
+      rw [h1] at h
+      cases h2 : S.validateInputs cs with
+      | error e => rw [h2] at h; cases h
+      | ok r =>
+        rw [h2] at h
+        injection h with h
+        subst h
+        obtain ⟨e, hr⟩ := ih r h2
+        refine ⟨by simp [e], ?_⟩
+        intro x hx
+        rcases List.mem_cons.mp hx with hx | hx
+        · subst hx; exact validateInput_ok h1
+        · exact hr x hx
+
+theorem validateInputs_of {S : TxHS} (hi : RInv S) : ∀ (cs : List Nat),
+    (∀ c ∈ cs, (S.getOutputPos c).isSome) → ∃ sp, S.validateInputs cs = .ok sp := by
+  intro cs
+  induction cs with
+  | nil => intro _; exact ⟨[], rfl⟩
+  | cons c cs ih =>
+    intro h
+    obtain ⟨sp, hsp⟩ := ih (fun c' hc' => h c' (List.mem_cons_of_mem _ hc'))
+    have := h c (List.mem_cons_self ..)
+    cases hg : S.getOutputPos c with
+    | none => rw [hg] at this; cases this
+    | some cp =>
+      refine ⟨(c, cp) :: sp, ?_⟩
+      simp only [validateInputs, validateInput_of hi hg, hsp]
+
+/-- the state change of `apply_input` + `delete_output_pos_height` -/
+def dropLeaf (S : TxHS) (c pos : Nat) : TxHS :=
+  ({ S with leafSet := S.leafSet.filter (fun i => !(i == pos)) } : TxHS).deleteOutputPos c
+
+theorem applyInput_ok {S S' : TxHS} {c : Nat} {cp : CommitPos} (h : S.applyInput c cp = .ok S') :
+    cp.pos ∈ S.leafSet ∧ S' = S.dropLeaf c cp.pos := by
+  unfold applyInput at h
+  by_cases hm : cp.pos ∈ S.leafSet
+  · simp only [List.contains_eq_mem, hm, decide_true, if_true] at h
+    injection h with h
+    exact ⟨hm, h.symm⟩
+  · simp [hm] at h
+
+theorem applyInput_of {S : TxHS} {c : Nat} {cp : CommitPos} (hm : cp.pos ∈ S.leafSet) :
+    S.applyInput c cp = .ok (S.dropLeaf c cp.pos) := by
+  unfold applyInput dropLeaf
+  simp [hm]
+
+theorem dropLeaf_leafSet (S : TxHS) (c pos i : Nat) :
+    i ∈ (S.dropLeaf c pos).leafSet ↔ i ∈ S.leafSet ∧ i ≠ pos := by
+  unfold dropLeaf
+  simp
+
+theorem dropLeaf_index (S : TxHS) (c pos c' : Nat) :
+    (S.dropLeaf c pos).getOutputPos c' = if c' = c then none else S.getOutputPos c' := by
+  unfold dropLeaf
+  rw [getOutputPos_delete]
+  rfl
+
+theorem dropLeaf_rinv {S : TxHS} (hi : RInv S) {c : Nat} {cp : CommitPos}
+    (hg : S.getOutputPos c = some cp) : RInv (S.dropLeaf c cp.pos) := by
+  refine ⟨?_, ?_, ?_⟩
+  · intro i h
+    exact hi.bound i ((dropLeaf_leafSet S c cp.pos i).mp h).1
+  · intro i h c' hc'
+    obtain ⟨h1, h2⟩ := (dropLeaf_leafSet S c cp.pos i).mp h
+    have hc'' : S.leaves[i]? = some c' := hc'
+    obtain ⟨h', e⟩ := hi.indexed i h1 c' hc''
+    rw [dropLeaf_index]
+    have hne : c' ≠ c := by
+      intro heq; subst heq
+      rw [hg] at e
+      injection e with e
+      exact h2 (by rw [e])
+    rw [if_neg hne]
+    exact ⟨h', e⟩
+  · intro c' cp' hg'
+    rw [dropLeaf_index] at hg'
+    by_cases hc : c' = c
+    · rw [if_pos hc] at hg'; cases hg'
+    · rw [if_neg hc] at hg'
+      obtain ⟨h1, h2⟩ := hi.points c' cp' hg'
+      refine ⟨(dropLeaf_leafSet S c cp.pos cp'.pos).mpr ⟨h1, ?_⟩, h2⟩
+      intro heq
+      have h3 := (hi.points c cp hg).2
+      rw [heq] at h2
+      rw [h2] at h3
+      injection h3 with h3
+      exact hc h3
+
+/-- what the input loop of `apply_block` did, given that it succeeded -/
+structure InsApplied (S S2 : TxHS) (sp : List (Nat × CommitPos)) : Prop where
+  rinv : RInv S2
+  leaves : S2.leaves = S.leaves
+  leafSet : ∀ i, i ∈ S2.leafSet ↔ i ∈ S.leafSet ∧ i ∉ sp.map (·.2.pos)
+  index : ∀ c, S2.getOutputPos c = if c ∈ sp.map (·.1) then none else S.getOutputPos c
+  wasUnspent : ∀ x ∈ sp, S.getOutputPos x.1 = some x.2
+  nodup : (sp.map (·.1)).Nodup
+  spentIdx : S2.spentIdx = S.spentIdx
+
+theorem applyInputs_ok (sp : List (Nat × CommitPos)) : ∀ {S S2 : TxHS}, RInv S →
+    (∀ x ∈ sp, S.getOutputPos x.1 = some x.2 ∨ x.2.pos ∉ S.leafSet) →
+    S.applyInputs sp = .ok S2 → InsApplied S S2 sp := by
+  induction sp with
+  | nil =>
+    intro S S2 hi _ hr
+    simp only [applyInputs] at hr
+    injection hr with hr
+    subst hr
+    exact ⟨hi, rfl, by simp, by simp, fun x hx => (by cases hx), List.nodup_nil, rfl⟩
+  | cons x xs ih =>
+    intro S S2 hi hyp hr
+    simp only [applyInputs] at hr
+    cases h1 : S.applyInput x.1 x.2 with
+    | error e => rw [h1] at hr; cases hr
+    | ok S' =>
+      rw [h1] at hr
+      obtain ⟨hm, hS'⟩ := applyInput_ok h1
+      have hgx : S.getOutputPos x.1 = some x.2 := by
+        rcases hyp x (List.mem_cons_self ..) with h | h
+        · exact h
+        · exact absurd hm h
+      have hi' : RInv S' := hS' ▸ dropLeaf_rinv hi hgx
+      have hyp' : ∀ y ∈ xs, S'.getOutputPos y.1 = some y.2 ∨ y.2.pos ∉ S'.leafSet := by
+        intro y hy
+        rw [hS', dropLeaf_index, dropLeaf_leafSet]
+        rcases hyp y (List.mem_cons_of_mem _ hy) with h | h
+        · by_cases hc : y.1 = x.1
+          · right
+            rw [hc, hgx] at h
+            injection h with h
+            intro hcon
+            exact hcon.2 (by rw [h])
+          · left; rw [if_neg hc]; exact h
+        · right; exact fun hcon => h hcon.1
+      have B := ih hi' hyp' hr
+      have hne : ∀ y ∈ xs, y.1 ≠ x.1 := by
+        intro y hy hc
+        have := B.wasUnspent y hy
+        rw [hS', dropLeaf_index, if_pos hc] at this
+        cases this
+      refine ⟨B.rinv, ?_, ?_, ?_, ?_, ?_, ?_⟩
+      · rw [B.leaves, hS']; rfl
+      · intro i
+        rw [B.leafSet i, hS', dropLeaf_leafSet]
+        simp only [List.map_cons, List.mem_cons, not_or]
+        constructor
+        · rintro ⟨⟨a, b⟩, c⟩; exact ⟨a, b, c⟩
+        · rintro ⟨a, b, c⟩; exact ⟨⟨a, b⟩, c⟩
+      · intro c
+        rw [B.index c, hS', dropLeaf_index]
+        simp only [List.map_cons, List.mem_cons]
+        by_cases h1 : c ∈ xs.map (·.1)
+        · simp [h1]
+        · by_cases h2 : c = x.1
+          · simp [h2]
+          · simp [h1, h2]
+      · intro y hy
+        rcases List.mem_cons.mp hy with hy | hy
+        · subst hy; exact hgx
+        · have := B.wasUnspent y hy
+          rw [hS', dropLeaf_index, if_neg (hne y hy)] at this
+          exact this
+      · simp only [List.map_cons]
+        refine List.nodup_cons.mpr ⟨?_, B.nodup⟩
+        intro hm'
+        obtain ⟨y, hy, hyx⟩ := List.mem_map.mp hm'
+        exact hne y hy hyx
+      · rw [B.spentIdx, hS']; rfl
+
 end TxHS
 end GV.Chain
